@@ -453,3 +453,64 @@ Proof. unfold cb_from_slice_p, cb_from_slice, Totality.lenN. change TAPROOT_CONT
     rewrite slice_ok by (cbn [length]; lia). cbn [bind skipn]. change (33 - 1)%nat with 32%nat. cbv zeta. destruct (negb _); [reflexivity|].
     rewrite slice_from_ok by (cbn [length]; lia). cbn [bind skipn]. rewrite branch_from_slice_p_spec. destruct (branch_from_slice _); reflexivity. }
   destruct (N.land (b2n b0) 1) as [|[q|q|]] eqn:Ep; try lia; cbn [N.eqb Pos.eqb orb expect bind]; apply T. Qed.
+
+(* ------------------------------------------------------------------------------------------------ refinement: SegwitHrpstring::new written with partial
+   operations is Bech32.segwit_decode under the blech32 configuration (the function C06/C17 are about) *)
+Definition symsl (d : bytes) : list N := map (fun c => match from_char c with Some v => v | None => 0 end) d.
+Lemma syms_p_valid d : forallb validc d = true -> syms_p d = HOk (symsl d).
+Proof. induction d as [|c r IH]; cbn [forallb syms_p symsl map]; [reflexivity|]. unfold validc at 1. intros H. apply andb_true_iff in H as [Hc Hr].
+  destruct (from_char c); [|discriminate]. fold (symsl r). now rewrite (IH Hr). Qed.
+Lemma syms_of_valid d : forallb validc d = true -> syms_of d = Some (symsl d).
+Proof. unfold syms_of. induction d as [|c r IH]; cbn [forallb map Bech32.all_some symsl]; [reflexivity|]. unfold validc at 1. intros H. apply andb_true_iff in H as [Hc Hr].
+  destruct (from_char c); [|discriminate]. fold (symsl r). now rewrite (IH Hr). Qed.
+Lemma symsl_length d : length (symsl d) = length d. Proof. apply map_length. Qed.
+Lemma validate_checksum_p_spec c slen h d : forallb validc d = true ->
+  validate_checksum_p c h d = of_res (validate_checksum cfg_blech c slen h (symsl d)).
+Proof. intros V. unfold validate_checksum_p, validate_checksum. cbn [cfg_blech sw_code_length]. destruct (Nat.eqb (c_len c) 0); [reflexivity|].
+  rewrite symsl_length. destruct (_ <? _)%nat; [reflexivity|]. rewrite (syms_p_valid d V). cbn [hbind]. destruct (valid_codeword _ _); reflexivity. Qed.
+Lemma validate_padding_p_spec d : forallb validc d = true -> validate_padding_p d = of_res (validate_padding (symsl d)).
+Proof. intros V. unfold validate_padding_p, validate_padding. destruct d as [|c r]; [reflexivity|]. set (d := c :: r) in *.
+  assert (NE : symsl d <> []) by (unfold d; cbn; discriminate). destruct (symsl d) as [|v t] eqn:Es; [contradiction|]. rewrite <- Es. rewrite symsl_length.
+  destruct (Nat.ltb_spec 4 (length d * 5 mod 8)) as [|P]; [reflexivity|]. rewrite (syms_p_valid d V). cbn [hbind]. rewrite Es at 1. cbn [expect of_outcome hbind].
+  destruct (length d * 5 mod 8)%nat as [|[|[|[|[|p]]]]]; cbn [hbind]; try lia.
+  - change (N.ones (N.of_nat 0)) with 0. rewrite N.land_0_r. reflexivity.
+  - change (N.ones (N.of_nat 1)) with 1. destruct (N.eqb_spec (N.land (last (symsl d) 0) 1) 0) as [->|]; [reflexivity|]. destruct (N.ltb_spec 0 (N.land (last (symsl d) 0) 1)); [reflexivity|lia].
+  - change (N.ones (N.of_nat 2)) with 3. destruct (N.eqb_spec (N.land (last (symsl d) 0) 3) 0) as [->|]; [reflexivity|]. destruct (N.ltb_spec 0 (N.land (last (symsl d) 0) 3)); [reflexivity|lia].
+  - change (N.ones (N.of_nat 3)) with 7. destruct (N.eqb_spec (N.land (last (symsl d) 0) 7) 0) as [->|]; [reflexivity|]. destruct (N.ltb_spec 0 (N.land (last (symsl d) 0) 7)); [reflexivity|lia].
+  - change (N.ones (N.of_nat 4)) with 15. destruct (N.eqb_spec (N.land (last (symsl d) 0) 15) 0) as [->|]; [reflexivity|]. destruct (N.ltb_spec 0 (N.land (last (symsl d) 0) 15)); [reflexivity|lia]. Qed.
+Lemma validate_wpl_p_spec ver d : validate_wpl_p ver d = of_res (validate_wpl cfg_blech ver (symsl d)).
+Proof. unfold validate_wpl_p, validate_wpl. cbn [cfg_blech sw_len_min sw_len_max sw_len_v0_a sw_len_v0_b]. rewrite symsl_length.
+  destruct (_ <? _)%nat; [reflexivity|]. destruct (_ <? _)%nat; [reflexivity|]. destruct (_ && _); reflexivity. Qed.
+Lemma data_bytes_valid d : forallb validc d = true -> data_bytes d = fes_to_bytes (symsl d).
+Proof. intros V. unfold data_bytes. now rewrite (syms_of_valid d V). Qed.
+Lemma symsl_firstn n d : symsl (firstn n d) = firstn n (symsl d). Proof. unfold symsl. now rewrite firstn_map. Qed.
+
+Theorem segwit_new_p_spec s :
+  match segwit_new_p s with
+  | HOk (h, ver, d) => segwit_decode cfg_blech s = Bech32.Ok (ver, data_bytes d)
+  | HErr e => segwit_decode cfg_blech s = Bech32.Err e
+  | HPanic _ => False end.
+Proof. unfold segwit_new_p, segwit_front, segwit_decode. cbn [cfg_blech sw_max_string sw_max_version sw_code_v0 sw_code_v1].
+  pose proof (unchecked_valid s) as UV. rewrite unchecked_new_p_spec in *. destruct (Bech32.unchecked_new s) as [[h d]|e]; cbn [of_res hbind]; [|reflexivity].
+  specialize (UV h d eq_refl). rewrite (syms_of_valid d UV). destruct d as [|c r]; [reflexivity|]. cbn [andb Script.is_empty].
+  rewrite (idx_ok (c :: r) 0 x00) by (cbn; lia). cbn [nth of_outcome hbind]. pose proof UV as UV'. cbn [forallb] in UV'. apply andb_true_iff in UV' as [Vc Vr]. unfold validc in Vc.
+  cbn [symsl map]. fold (symsl r). destruct (from_char c) as [ver|] eqn:Fc; [|discriminate]. cbn [expect of_outcome hbind].
+  destruct (BLECH_MAX_WITNESS_VERSION <? ver); [reflexivity|]. cbn [hbind].
+  set (code := if ver =? 0 then blech_code BLECH_V0_CODE else blech_code BLECH_V1PLUS_CODE).
+  assert (Es : ver :: symsl r = symsl (c :: r)) by (cbn [symsl map]; now rewrite Fc). rewrite Es.
+  rewrite (validate_checksum_p_spec code (length s) h (c :: r) UV).
+  pose proof (checksum_steps code h (c :: r) UV) as CS. rewrite (validate_checksum_p_spec code (length s) h (c :: r) UV) in CS.
+  destruct (validate_checksum cfg_blech code (length s) h (symsl (c :: r))) as [[]|e]; cbn [of_res hbind] in *; [|reflexivity].
+  unfold remove_checksum_p in *. destruct (usub (length (c :: r)) (c_len code)) as [n|e0|w0] eqn:Us; cbn [of_outcome hbind] in *;
+    [|exfalso; unfold usub in Us; destruct (_ <=? _)%nat; discriminate|contradiction].
+  assert (En : n = (length (c :: r) - c_len code)%nat). { unfold usub in Us. destruct (_ <=? _)%nat; inversion Us; reflexivity. }
+  destruct (slice_to (c :: r) n) as [d'|e0|w0] eqn:Sl; cbn [of_outcome hbind] in *;
+    [|exfalso; unfold slice_to, slice in Sl; destruct (_ && _); discriminate|contradiction].
+  assert (Ed : d' = firstn n (c :: r)). { unfold slice_to, slice in Sl. destruct (_ && _); inversion Sl. now rewrite Nat.sub_0_r. }
+  rewrite symsl_length, <- En, <- symsl_firstn, <- Ed.
+  unfold validate_segwit_p. destruct d' as [|c' r']; [reflexivity|]. rewrite (idx_ok (c' :: r') 0 x00) by (cbn; lia). cbn [nth of_outcome hbind].
+  pose proof CS as CS'. cbn [forallb] in CS'. apply andb_true_iff in CS' as [Vc' Vr']. unfold validc in Vc'. cbn [symsl map]. fold (symsl r').
+  destruct (from_char c') as [ver'|]; [|discriminate]. cbn [expect of_outcome hbind]. rewrite slice_from_ok by (cbn; lia). cbn [skipn of_outcome hbind].
+  rewrite (validate_padding_p_spec r' Vr'). destruct (validate_padding (symsl r')) as [[]|e]; cbn [of_res hbind]; [|reflexivity].
+  rewrite validate_wpl_p_spec. destruct (validate_wpl cfg_blech ver' (symsl r')) as [[]|e]; cbn [of_res hbind]; [|reflexivity].
+  now rewrite (data_bytes_valid r' Vr'). Qed.
